@@ -3,4 +3,5 @@ CONSTANTS
   N = 2
   Rad = 1
   Bug = 10
+CHECK_DEADLOCK FALSE
 INVARIANTS ShrinkStretchLaw
